@@ -15,11 +15,13 @@ EXTENDS NumericCmp, SequencesExt, TLC
 CONSTANTS Alphabet, MaxLen
 
 All == UNION { [1..n -> Alphabet] : n \in 0..MaxLen }
-V == { s \in All : ValidReal(s) }
-VD == { s \in All : ValidDecimal(s) }
-VS == SetToSeq(V)
+(* TLCEval forces TLC to evaluate these constants once instead of re-evaluating the lazy   *)
+(* set / function expressions at every use                                                 *)
+V == TLCEval({ s \in All : ValidReal(s) })
+VD == TLCEval({ s \in All : ValidDecimal(s) })
+VS == TLCEval(SetToSeq(V))
 N == Len(VS)
-M == [i \in 1..N |-> [j \in 1..N |-> ValueCmp(VS[i], VS[j])]]
+M == TLCEval([i \in 1..N |-> TLCEval([j \in 1..N |-> ValueCmp(VS[i], VS[j])])])
 
 (* independent oracle: value * 10^MaxLen as an integer *)
 RECURSIVE DigitsToInt(_, _)
@@ -32,9 +34,11 @@ Scaled(s) ==
     IN IF Negative(s) THEN -mag ELSE mag
 Sg(x) == IF x < 0 THEN -1 ELSE IF x > 0 THEN 1 ELSE 0
 
+(* rows are visited in heap order (i -> 2i, 2i+1) so that the workers share them *)
 VARIABLE i
 Init == i = 0
-Next == i = 0 /\ i' \in 1..N
+Next == \/ i = 0 /\ i' = 1
+        \/ i > 0 /\ \E c \in {2 * i, 2 * i + 1} : c <= N /\ i' = c
 Spec == Init /\ [][Next]_i
 
 Classification ==
